@@ -1310,9 +1310,10 @@ Qed.
 
 (** steps the link theorem covers: everything except CancelOrders commands (there the code
     iterates a hash map, [corr_b] compares multisets while the oracle additionally checks that the
-    mailbox order equals the reported order) and the degenerate environment op [OpSetLink _ SNoIndex] *)
+    mailbox order equals the reported order), strategy-hook steps [OpHook] (judged by the oracle like
+    direct actions; not covered by this theorem) and the degenerate environment op [OpSetLink _ SNoIndex] *)
 Definition op_in_scope (o : op) : bool :=
-  negb (hash_ordered o) && match o with OpSetLink _ SNoIndex => false | _ => true end.
+  negb (hash_ordered o) && match o with OpSetLink _ SNoIndex | OpHook _ _ => false | _ => true end.
 Definition case_in_scope (c : case) : bool := forallb (fun st => op_in_scope (st_op st)) (c_steps c).
 
 Lemma has_inst_lt : forall (l : list inst) i, N.ltb i (N.of_nat (length l)) = true -> has_inst l i = true.
@@ -1426,7 +1427,7 @@ Proof.
   assert (Hwf0 : state_wf s0 = true) by exact Hwf.
   assert (Hl0 : N.of_nat (length (insts s0)) = N.of_nat (length (insts s))) by reflexivity.
   unfold model_step. cbn [st_op st_g st_close].
-  destruct o as [ev| |c|e stt]; subst ob.
+  destruct o as [ev| |c|e stt|h c]; subst ob.
   - (* process *)
     rewrite (surjective_pairing (process (cs_of cl) s0 ev g)). cbn [fst snd].
     rewrite <- (view_of_clear (fst (process (cs_of cl) s0 ev g))).
@@ -1451,6 +1452,8 @@ Proof.
     cbn [fst snd].
     rewrite <- (view_of_clear (mkState (trading s0) (updN (links s0) e (fun _ => link_of_stat stt)) (insts s0))).
     apply sound_setlink; [|exact Hclr]. intros ->. discriminate Hsc.
+  - (* strategy hook: outside the scope of this theorem *)
+    destruct h, c; discriminate Hsc.
 Qed.
 
 Lemma sound_run : forall steps s,
